@@ -470,9 +470,1223 @@ theorem texts_three (A B : Diff) (op : DOp) (a e b a' e' b' : Str)
     · have h := congrArg (· ++ text1 B) hU; simp only [List.append_assoc] at h ⊢; rw [h]
     · have h := congrArg (· ++ text2 B) hT; simp only [List.append_assoc] at h ⊢; rw [h]
   · simp only [c1, c2]
-    simp only [reduceCtorEq, if_false, List.nil_append]
+    simp only [reduceCtorEq, if_false]
     constructor
     · have h := congrArg (· ++ text1 B) hT; simp only [List.append_assoc] at h ⊢; rw [h]
     · have h := congrArg (· ++ text2 B) hT; simp only [List.append_assoc] at h ⊢; rw [h]
+
+/-- texts when the left equality of `eq, op, eq` vanished -/
+theorem texts_three_dropL (A B : Diff) (op : DOp) (a e b e' b' : Str)
+    (hT : e' ++ b' = a ++ e ++ b) (hU : b' = a ++ b) :
+    SameTexts (A ++ (DOp.eq, a) :: (op, e) :: (DOp.eq, b) :: B) (A ++ (op, e') :: (DOp.eq, b') :: B) := by
+  have h := texts_three A B op a e b [] e' b' (by simpa using hT) (by simpa using hU)
+  refine SameTexts.trans h ?_
+  unfold SameTexts
+  simp [text1_append, text2_append, text1_cons', text2_cons', c1_eq, c2_eq]
+
+/-- texts when the right equality of `eq, op, eq` vanished -/
+theorem texts_three_dropR (A B : Diff) (op : DOp) (a e b a' e' : Str)
+    (hT : a' ++ e' = a ++ e ++ b) (hU : a' = a ++ b) :
+    SameTexts (A ++ (DOp.eq, a) :: (op, e) :: (DOp.eq, b) :: B) (A ++ (DOp.eq, a') :: (op, e') :: B) := by
+  have h := texts_three A B op a e b a' e' [] (by simpa using hT) (by simpa using hU)
+  refine SameTexts.trans h ?_
+  unfold SameTexts
+  simp [text1_append, text2_append, text1_cons', text2_cons', c1_eq, c2_eq]
+
+theorem lossless_same (fuel : Nat) (d : Diff) (ptr : Nat) (hp : 1 ≤ ptr) :
+    SameTexts d (lossless fuel d ptr) := by
+  induction fuel generalizing d ptr with
+  | zero => exact SameTexts.refl d
+  | succ f ih =>
+    unfold lossless
+    split
+    · next hlen =>
+      split
+      · next hops =>
+        obtain ⟨A, x, y, z, B, hd, hA⟩ := split3 d ptr hp hlen
+        obtain ⟨q, hq⟩ : ∃ q, ptr = q + 1 := ⟨ptr - 1, by omega⟩
+        subst hq
+        simp only [Nat.add_sub_cancel] at hA hops ⊢
+        subst hA
+        obtain ⟨xo, xt⟩ := x
+        obtain ⟨yo, yt⟩ := y
+        obtain ⟨zo, zt⟩ := z
+        have gx : getOp d A.length = some xo := by rw [hd]; exact getOp_at A _ _ _ rfl
+        have gz : getOp d (A.length + 1 + 1) = some zo := by
+          rw [hd]; exact getOp_at (A ++ [(xo, xt), (yo, yt)]) (zo, zt) B _ (by simp) |> (by simpa using ·)
+        have tx : getTx d A.length = xt := by rw [hd]; exact getTx_at A _ _ _ rfl
+        have ty : getTx d (A.length + 1) = yt := by
+          rw [hd]; exact getTx_at (A ++ [(xo, xt)]) (yo, yt) _ _ (by simp) |> (by simpa using ·)
+        have tz : getTx d (A.length + 1 + 1) = zt := by
+          rw [hd]; exact getTx_at (A ++ [(xo, xt), (yo, yt)]) (zo, zt) B _ (by simp) |> (by simpa using ·)
+        have gy : getOp d (A.length + 1) = some yo := by
+          rw [hd]; exact getOp_at (A ++ [(xo, xt)]) (yo, yt) _ _ (by simp) |> (by simpa using ·)
+        rw [gx, gz] at hops
+        have hxo : xo = .eq := by have := hops.1; injection this
+        have hzo : zo = .eq := by have := hops.2; injection this
+        subst hxo; subst hzo
+        simp only [tx, ty, tz, gy, Option.getD_some]
+        -- the shifted triple
+        generalize hsh : (if commonSuffix xt yt ≠ 0 then
+            (dropRight (commonSuffix xt yt) xt, takeRight (commonSuffix xt yt) yt ++ dropRight (commonSuffix xt yt) yt,
+              takeRight (commonSuffix xt yt) yt ++ zt)
+          else (xt, yt, zt)) = sh
+        obtain ⟨e1, ed, e2⟩ := sh
+        have hshT : e1 ++ ed ++ e2 = xt ++ yt ++ zt ∧ e1 ++ e2 = xt ++ zt := by
+          split at hsh
+          · injection hsh with h1 hsh; injection hsh with h2 h3
+            subst h1; subst h2; subst h3
+            have hs := commonSuffix_takeRight xt yt
+            constructor
+            · have a1 := dropRight_takeRight xt (commonSuffix xt yt)
+              have a2 := dropRight_takeRight yt (commonSuffix xt yt)
+              calc dropRight (commonSuffix xt yt) xt ++ (takeRight (commonSuffix xt yt) yt ++ dropRight (commonSuffix xt yt) yt)
+                      ++ (takeRight (commonSuffix xt yt) yt ++ zt)
+                  = (dropRight (commonSuffix xt yt) xt ++ takeRight (commonSuffix xt yt) xt)
+                      ++ (dropRight (commonSuffix xt yt) yt ++ takeRight (commonSuffix xt yt) yt) ++ zt := by
+                    rw [hs]; simp only [List.append_assoc]
+                _ = xt ++ yt ++ zt := by rw [a1, a2]
+            · have a1 := dropRight_takeRight xt (commonSuffix xt yt)
+              rw [← hs, ← List.append_assoc, a1]
+          · injection hsh with h1 hsh; injection hsh with h2 h3
+            subst h1; subst h2; subst h3
+            exact ⟨rfl, rfl⟩
+        have hshE : e1 = [] → e2 = [] → xt = [] := by
+          intro h1 h2
+          split at hsh
+          · next hco =>
+            injection hsh with _ hsh; injection hsh with _ h3
+            rw [h2] at h3
+            have : takeRight (commonSuffix xt yt) yt = [] := by
+              have := congrArg List.length h3
+              simp only [List.length_append, List.length_nil] at this
+              exact List.eq_nil_of_length_eq_zero (by omega)
+            have hl := takeRight_length_le (commonSuffix xt yt) yt (by rw [commonSuffix_comm]; exact commonSuffix_le_left yt xt)
+            rw [this] at hl
+            simp only [List.length_nil] at hl
+            exact absurd hl.symm hco
+          · injection hsh with h1' _
+            rw [h1']; exact h1
+        generalize hsl : slideRight (e2.length + 1) e1 ed e2 (semanticScore e1 ed + semanticScore ed e2) (e1, ed, e2) = res
+        obtain ⟨b1, be, b2⟩ := res
+        have hinv := slideRight_inv (e2.length + 1) e1 ed e2 (semanticScore e1 ed + semanticScore ed e2) (e1, ed, e2)
+          _ _ hshT.1 hshT.2 ⟨hshT.1, hshT.2⟩
+        have hfirst := slideRight_first (e2.length + 1) e1 ed e2 (semanticScore e1 ed + semanticScore ed e2) (e1, ed, e2)
+        rw [hsl] at hinv hfirst
+        dsimp only at hinv hfirst ⊢
+        split
+        · next hne =>
+          -- an improvement is saved back
+          by_cases hb1 : b1 = []
+          · subst hb1
+            simp only [ne_eq, not_true_eq_false, if_false]
+            have hb2 : b2 ≠ [] := by
+              intro hb2
+              subst hb2
+              rcases hfirst with hf | hf
+              · injection hf with h1 hf; injection hf with _ h3
+                exact hne (hshE h1.symm h3.symm)
+              · exact hf rfl
+            simp only [hb2, not_false_eq_true, if_true]
+            rw [hd]
+            simp only [eraseIdx_mid, set_mid, set_mid1]
+            refine SameTexts.trans ?_ (ih _ _ (by omega))
+            exact texts_three_dropL A B yo xt yt zt be b2 (by simpa using hinv.1) (by simpa using hinv.2)
+          · simp only [ne_eq, hb1, not_false_eq_true, if_true]
+            by_cases hb2 : b2 = []
+            · subst hb2
+              simp only [not_true_eq_false, if_false]
+              rw [hd]
+              simp only [set_mid, set_mid1, eraseIdx_mid2]
+              refine SameTexts.trans ?_ (ih _ _ (by omega))
+              exact texts_three_dropR A B yo xt yt zt b1 be (by simpa using hinv.1) (by simpa using hinv.2)
+            · simp only [hb2, not_false_eq_true, if_true]
+              rw [hd]
+              simp only [set_mid, set_mid1, set_mid2]
+              refine SameTexts.trans ?_ (ih _ _ (by omega))
+              exact texts_three A B yo xt yt zt b1 be b2 hinv.1 hinv.2
+        · exact ih _ _ (by omega)
+      · exact ih _ _ (by omega)
+    · exact SameTexts.refl d
+
+/-! ### cleanupMerge, second pass -/
+
+theorem isPrefix_spec (p s : Str) (h : isPrefix p s = true) : p ++ s.drop p.length = s := by
+  induction p generalizing s with
+  | nil => simp
+  | cons a p ih =>
+    cases s with
+    | nil => simp [isPrefix] at h
+    | cons b s =>
+      simp only [isPrefix, Bool.and_eq_true, beq_iff_eq] at h
+      obtain ⟨hab, hp⟩ := h
+      subst hab
+      simp [ih s hp]
+
+theorem endsWith_spec (s suf : Str) (h : endsWith s suf = true) : dropRight suf.length s ++ suf = s := by
+  unfold endsWith at h
+  simp only [Bool.and_eq_true, decide_eq_true_eq, beq_iff_eq] at h
+  have := dropRight_takeRight s suf.length
+  rw [h.2] at this
+  exact this
+
+/-- the three entries around `ptr` in zipper form, with their ops and texts read through `getOp` / `getTx` -/
+theorem around (d : Diff) (ptr : Nat) (hp : 1 ≤ ptr) (hlen : ptr + 1 < d.length) :
+    ∃ A xo xt yo yt zo zt B, d = A ++ (xo, xt) :: (yo, yt) :: (zo, zt) :: B ∧ ptr = A.length + 1 ∧
+      getOp d (ptr - 1) = some xo ∧ getOp d ptr = some yo ∧ getOp d (ptr + 1) = some zo ∧
+      getTx d (ptr - 1) = xt ∧ getTx d ptr = yt ∧ getTx d (ptr + 1) = zt := by
+  obtain ⟨A, x, y, z, B, hd, hA⟩ := split3 d ptr hp hlen
+  obtain ⟨xo, xt⟩ := x
+  obtain ⟨yo, yt⟩ := y
+  obtain ⟨zo, zt⟩ := z
+  have hq : ptr = A.length + 1 := by omega
+  refine ⟨A, xo, xt, yo, yt, zo, zt, B, hd, hq, ?_, ?_, ?_, ?_, ?_, ?_⟩
+  · rw [hd]; exact getOp_at A _ _ _ (by omega)
+  · rw [hd]; have := getOp_at (A ++ [(xo, xt)]) (yo, yt) ((zo, zt) :: B) ptr (by simp; omega); simpa using this
+  · rw [hd]; have := getOp_at (A ++ [(xo, xt), (yo, yt)]) (zo, zt) B (ptr + 1) (by simp; omega); simpa using this
+  · rw [hd]; exact getTx_at A _ _ _ (by omega)
+  · rw [hd]; have := getTx_at (A ++ [(xo, xt)]) (yo, yt) ((zo, zt) :: B) ptr (by simp; omega); simpa using this
+  · rw [hd]; have := getTx_at (A ++ [(xo, xt), (yo, yt)]) (zo, zt) B (ptr + 1) (by simp; omega); simpa using this
+
+theorem mergePass2_same (fuel : Nat) (d : Diff) (ptr : Nat) (ch : Bool) (hp : 1 ≤ ptr) :
+    SameTexts d (mergePass2 fuel d ptr ch).1 := by
+  induction fuel generalizing d ptr ch with
+  | zero => exact SameTexts.refl d
+  | succ f ih =>
+    unfold mergePass2
+    split
+    · next hlen =>
+      split
+      · next hops =>
+        obtain ⟨A, xo, xt, yo, yt, zo, zt, B, hd, hq, g1, g2, g3, t1, t2, t3⟩ := around d ptr hp hlen
+        rw [g1, g3] at hops
+        have hxo : xo = .eq := by have := hops.1; injection this
+        have hzo : zo = .eq := by have := hops.2; injection this
+        subst hxo; subst hzo
+        simp only [t1, t2, t3, g2, Option.getD_some]
+        subst hq
+        simp only [Nat.add_sub_cancel]
+        split
+        · next hend =>
+          have hs := endsWith_spec yt xt hend
+          refine SameTexts.trans ?_ (ih _ _ _ (by omega))
+          by_cases hx : xt = []
+          · subst hx
+            simp only [ne_eq, not_true_eq_false, if_false]
+            rw [hd, eraseIdx_mid]
+            exact texts_three_dropL A B yo [] yt zt yt zt (by simp) (by simp)
+          · simp only [ne_eq, hx, not_false_eq_true, if_true]
+            rw [hd]
+            simp only [set_mid1, set_mid2, eraseIdx_mid]
+            refine texts_three_dropL A B yo xt yt zt _ _ ?_ rfl
+            rw [← hs]
+            simp only [List.append_assoc]
+            rw [hs]
+        · split
+          · next hstart =>
+            have hs := isPrefix_spec zt yt hstart
+            refine SameTexts.trans ?_ (ih _ _ _ (by omega))
+            rw [hd]
+            simp only [set_mid, set_mid1, eraseIdx_mid2]
+            refine texts_three_dropR A B yo xt yt zt _ _ ?_ rfl
+            rw [← hs]
+            simp only [List.append_assoc]
+            rw [hs]
+          · exact ih _ _ _ (by omega)
+      · exact ih _ _ _ (by omega)
+    · exact SameTexts.refl d
+
+/-! ### commonOverlap -/
+
+theorem findAux_spec (needle hay : Str) (i j : Nat) (h : findAux needle hay i = some j) :
+    ∃ k, j = i + k ∧ k ≤ hay.length ∧ isPrefix needle (hay.drop k) = true := by
+  induction hay generalizing i with
+  | nil =>
+    simp only [findAux] at h
+    split at h
+    · next he =>
+      cases h
+      have : needle = [] := by simpa using he
+      subst this
+      exact ⟨0, rfl, Nat.le_refl _, rfl⟩
+    · cases h
+  | cons c rest ih =>
+    simp only [findAux] at h
+    split at h
+    · next hp => cases h; exact ⟨0, rfl, Nat.zero_le _, hp⟩
+    · obtain ⟨k, hj, hk, hp⟩ := ih (i + 1) h
+      exact ⟨k + 1, by omega, by simp; omega, by simpa using hp⟩
+
+theorem isPrefix_take (p s : Str) (h : isPrefix p s = true) : p.length ≤ s.length ∧ s.take p.length = p := by
+  have hs := isPrefix_spec p s h
+  have hl := congrArg List.length hs
+  simp only [List.length_append, List.length_drop] at hl
+  refine ⟨by omega, ?_⟩
+  have := congrArg (List.take p.length) hs
+  rw [List.take_left' rfl] at this
+  exact this.symm
+
+/-- `find hay needle = some k`: the needle sits at offset `k` -/
+theorem find_spec (hay needle : Str) (k : Nat) (h : find hay needle = some k) :
+    k + needle.length ≤ hay.length ∧ (hay.drop k).take needle.length = needle := by
+  unfold find at h
+  simp only [List.drop_zero] at h
+  obtain ⟨k', hj, hk, hp⟩ := findAux_spec needle hay 0 k h
+  have : k = k' := by omega
+  subst this
+  have := isPrefix_take needle _ hp
+  simp only [List.length_drop] at this
+  exact ⟨by omega, this.2⟩
+
+theorem takeRight_all (n : Nat) (s : Str) (h : s.length ≤ n) : takeRight n s = s := by
+  unfold takeRight
+  have : s.length - n = 0 := by omega
+  rw [this]; rfl
+
+theorem takeRight_length (n : Nat) (s : Str) : (takeRight n s).length = min n s.length := by
+  unfold takeRight; simp [List.length_drop]; omega
+
+theorem commonOverlap_loop_spec (a b : Str) (hab : a ≠ b) (hl : a.length = b.length) (fuel best length : Nat)
+    (hb : best ≤ a.length ∧ takeRight best a = b.take best) :
+    commonOverlap.loop a b fuel best length ≤ a.length ∧
+      takeRight (commonOverlap.loop a b fuel best length) a = b.take (commonOverlap.loop a b fuel best length) := by
+  induction fuel generalizing best length with
+  | zero => simpa [commonOverlap.loop] using hb
+  | succ f ih =>
+    unfold commonOverlap.loop
+    split
+    · exact hb
+    · next found hf =>
+      dsimp only
+      have hsp := find_spec b (takeRight length a) found hf
+      rw [takeRight_length] at hsp
+      have hle : length ≤ a.length := by
+        by_cases hc : length ≤ a.length
+        · exact hc
+        · exfalso
+          have hall : takeRight length a = a := takeRight_all length a (by omega)
+          rw [hall] at hsp
+          have hmin : min length a.length = a.length := by omega
+          rw [hmin] at hsp
+          have hf0 : found = 0 := by omega
+          subst hf0
+          have h2 := hsp.2
+          simp only [List.drop_zero] at h2
+          rw [hl, List.take_length] at h2
+          exact hab h2.symm
+      have hmin : min length a.length = length := by omega
+      rw [hmin] at hsp
+      split
+      · next hcond =>
+        apply ih
+        refine ⟨by omega, ?_⟩
+        simp only [Bool.or_eq_true, decide_eq_true_eq] at hcond
+        rcases hcond with h0 | h1
+        · subst h0
+          simp only [Nat.add_zero, List.drop_zero] at hsp ⊢
+          exact hsp.2.symm
+        · exact h1
+      · exact ih _ _ hb
+
+theorem takeRight_takeRight (k n : Nat) (s : Str) (h : k ≤ n) : takeRight k (takeRight n s) = takeRight k s := by
+  unfold takeRight
+  simp only [List.length_drop, List.drop_drop]
+  congr 1
+  omega
+
+/-- `diff_commonOverlap`: the result is the length of a suffix of `t1` that is a prefix of `t2` -/
+theorem commonOverlap_spec (t1 t2 : Str) :
+    commonOverlap t1 t2 ≤ t1.length ∧ commonOverlap t1 t2 ≤ t2.length ∧
+      takeRight (commonOverlap t1 t2) t1 = t2.take (commonOverlap t1 t2) := by
+  unfold commonOverlap
+  split
+  · simp [takeRight]
+  · dsimp only
+    generalize ha : (if t1.length > t2.length then takeRight t2.length t1 else t1) = a
+    generalize hb : (if t1.length < t2.length then t2.take t1.length else t2) = b
+    have hal : a.length = min t1.length t2.length := by
+      rw [← ha]; split
+      · rw [takeRight_length]; omega
+      · omega
+    have hbl : b.length = min t1.length t2.length := by
+      rw [← hb]; split
+      · simp only [List.length_take]
+      · omega
+    have hak : ∀ k, k ≤ min t1.length t2.length → takeRight k a = takeRight k t1 := by
+      intro k hk
+      rw [← ha]; split
+      · exact takeRight_takeRight k _ t1 (by omega)
+      · rfl
+    have hbk : ∀ k, k ≤ min t1.length t2.length → b.take k = t2.take k := by
+      intro k hk
+      rw [← hb]; split
+      · rw [List.take_take]; congr 1; omega
+      · rfl
+    split
+    · next hab =>
+      refine ⟨Nat.min_le_left _ _, Nat.min_le_right _ _, ?_⟩
+      rw [← hak _ (Nat.le_refl _), ← hbk _ (Nat.le_refl _), takeRight_all _ a (by omega), ← hbl, List.take_length]
+      exact hab
+    · next hab =>
+      have := commonOverlap_loop_spec a b hab (by omega) (min t1.length t2.length + 2) 0 1
+        ⟨Nat.zero_le _, by simp [takeRight]⟩
+      generalize commonOverlap.loop a b (min t1.length t2.length + 2) 0 1 = r at this
+      have hr : r ≤ min t1.length t2.length := by omega
+      refine ⟨by omega, by omega, ?_⟩
+      rw [← hak r hr, ← hbk r hr]
+      exact this.2
+
+/-! ### the overlap pass of cleanupSemantic -/
+
+theorem take_mid1 {α} (A : List α) (x : α) (R : List α) : (A ++ x :: R).take (A.length + 1) = A ++ [x] := by
+  induction A with
+  | nil => rfl
+  | cons a A ih => simp [ih]
+
+theorem drop_mid1 {α} (A : List α) (x : α) (R : List α) : (A ++ x :: R).drop (A.length + 1) = R := by
+  induction A with
+  | nil => rfl
+  | cons a A ih => simp [ih]
+
+theorem take_mid {α} (A R : List α) : (A ++ R).take A.length = A := List.take_left' rfl
+theorem drop_mid {α} (A R : List α) : (A ++ R).drop A.length = R := List.drop_left' rfl
+
+theorem split2 {α} (d : List α) (p : Nat) (hp : 1 ≤ p) (h : p < d.length) :
+    ∃ A x y B, d = A ++ x :: y :: B ∧ p = A.length + 1 := by
+  obtain ⟨A, x, B, hd, hA⟩ := split_at d (p - 1) (by omega)
+  have hB : 1 ≤ B.length := by
+    have := congrArg List.length hd
+    simp at this
+    omega
+  match B, hB with
+  | y :: B', _ => exact ⟨A, x, y, B', hd, by omega⟩
+
+theorem overlapPass_same (fuel : Nat) (d : Diff) (ptr : Nat) (hp : 1 ≤ ptr) :
+    SameTexts d (overlapPass fuel d ptr) := by
+  induction fuel generalizing d ptr with
+  | zero => exact SameTexts.refl d
+  | succ f ih =>
+    unfold overlapPass
+    split
+    · next hlen =>
+      split
+      · next hops =>
+        obtain ⟨A, x, y, B, hd, hq⟩ := split2 d ptr hp hlen
+        obtain ⟨xo, D⟩ := x
+        obtain ⟨yo, I⟩ := y
+        subst hq
+        simp only [Nat.add_sub_cancel] at hops ⊢
+        have g1 : getOp d A.length = some xo := by rw [hd]; exact getOp_at A _ _ _ rfl
+        have g2 : getOp d (A.length + 1) = some yo := by
+          rw [hd]; have := getOp_at (A ++ [(xo, D)]) (yo, I) B (A.length + 1) (by simp); simpa using this
+        have t1 : getTx d A.length = D := by rw [hd]; exact getTx_at A _ _ _ rfl
+        have t2 : getTx d (A.length + 1) = I := by
+          rw [hd]; have := getTx_at (A ++ [(xo, D)]) (yo, I) B (A.length + 1) (by simp); simpa using this
+        rw [g1, g2] at hops
+        have hxo : xo = .del := by have := hops.1; injection this
+        have hyo : yo = .ins := by have := hops.2; injection this
+        subst hxo; subst hyo
+        simp only [t1, t2]
+        have htk : d.take (A.length + 1) = A ++ [(DOp.del, D)] := by rw [hd]; exact take_mid1 A _ _
+        have hdr : d.drop (A.length + 1) = (DOp.ins, I) :: B := by rw [hd]; exact drop_mid1 A _ _
+        have s1 := commonOverlap_spec D I
+        have s2 := commonOverlap_spec I D
+        have base : ∀ (X Y Z : DOp × Str), c1 X ++ c1 Y ++ c1 Z = D → c2 X ++ c2 Y ++ c2 Z = I →
+            SameTexts d (A ++ X :: Y :: Z :: B) := by
+          intro X Y Z h1 h2
+          rw [hd]
+          unfold SameTexts
+          simp only [text1_append, text2_append, text1_cons', text2_cons']
+          constructor
+          · have := congrArg (fun t => text1 A ++ (t ++ text1 B)) h1
+            simpa [c1, List.append_assoc] using this
+          · have := congrArg (fun t => text2 A ++ (t ++ text2 B)) h2
+            simpa [c2, List.append_assoc] using this
+        split
+        · split
+          · refine SameTexts.trans ?_ (ih _ _ (by omega))
+            rw [htk, hdr]
+            have e : A ++ [(DOp.del, D)] ++ [(DOp.eq, List.take (commonOverlap D I) I)] ++ (DOp.ins, I) :: B
+                = A ++ (DOp.del, D) :: (DOp.eq, List.take (commonOverlap D I) I) :: (DOp.ins, I) :: B := by simp
+            rw [e]
+            simp only [set_mid, set_mid2]
+            apply base
+            · have := dropRight_takeRight D (commonOverlap D I)
+              rw [s1.2.2] at this
+              simpa [c1, dropRight] using this
+            · simp [c2]
+          · exact ih _ _ (by omega)
+        · split
+          · refine SameTexts.trans ?_ (ih _ _ (by omega))
+            rw [htk, hdr]
+            have e : A ++ [(DOp.del, D)] ++ [(DOp.eq, List.take (commonOverlap I D) D)] ++ (DOp.ins, I) :: B
+                = A ++ (DOp.del, D) :: (DOp.eq, List.take (commonOverlap I D) D) :: (DOp.ins, I) :: B := by simp
+            rw [e]
+            simp only [set_mid, set_mid2]
+            apply base
+            · simp [c1]
+            · have := dropRight_takeRight I (commonOverlap I D)
+              rw [s2.2.2] at this
+              simpa [c2, dropRight] using this
+          · exact ih _ _ (by omega)
+      · exact ih _ _ (by omega)
+    · exact SameTexts.refl d
+
+/-! ### the first pass of cleanupSemantic -/
+
+theorem split_of_get {α} (d : List α) (i : Nat) (x : α) (h : d[i]? = some x) :
+    ∃ A B, d = A ++ x :: B ∧ A.length = i := by
+  have hi : i < d.length := by
+    by_cases hc : i < d.length
+    · exact hc
+    · rw [List.getElem?_eq_none (by omega)] at h; cases h
+  obtain ⟨A, y, B, hd, hA⟩ := split_at d i hi
+  have : d[i]? = some y := by rw [hd, ← hA]; exact getElem?_mid A y B
+  rw [this] at h
+  injection h with h
+  subst h
+  exact ⟨A, B, hd, hA⟩
+
+/-- the equality remembered in `lastEq` is the entry on top of the stack -/
+def SemInv (s : SemSt) : Prop :=
+  ∀ le top rest, s.lastEq = some le → s.eqs = top :: rest → s.d[top]? = some (DOp.eq, le)
+
+theorem semPass1_same (fuel : Nat) (s : SemSt) (hinv : SemInv s) : SameTexts s.d (semPass1 fuel s).1 := by
+  induction fuel generalizing s with
+  | zero => exact SameTexts.refl _
+  | succ f ih =>
+    unfold semPass1
+    split
+    · exact ih _ hinv
+    · dsimp only
+      split
+      · exact SameTexts.refl _
+      · next t ht =>
+        refine ih _ ?_
+        intro le top rest h1 h2
+        injection h1 with h1
+        injection h2 with h2 _
+        subst h1; subst h2
+        exact ht
+      · next op t hne ht =>
+        generalize hs1 : (if op = DOp.ins then { s with li2 := s.li2 + t.length } else { s with ld2 := s.ld2 + t.length }) = s1
+        have hd : s1.d = s.d := by rw [← hs1]; split <;> rfl
+        have hl : s1.lastEq = s.lastEq := by rw [← hs1]; split <;> rfl
+        have he : s1.eqs = s.eqs := by rw [← hs1]; split <;> rfl
+        have hinv1 : SemInv s1 := by
+          intro le top rest h1 h2
+          rw [hd]; rw [hl] at h1; rw [he] at h2
+          exact hinv le top rest h1 h2
+        split
+        · next le top rest hle heq =>
+          split
+          · -- the equality is split into a delete and an insert
+            obtain ⟨A, B, hAB, hA⟩ := split_of_get s1.d top (DOp.eq, le) (hinv1 le top rest hle heq)
+            subst hA
+            have e1 : s1.d.take A.length ++ [(DOp.del, le)] ++ s1.d.drop A.length
+                = A ++ (DOp.del, le) :: (DOp.eq, le) :: B := by
+              rw [hAB, take_mid, drop_mid]; simp
+            rw [e1]
+            have e2 : getTx (A ++ (DOp.del, le) :: (DOp.eq, le) :: B) (A.length + 1) = le := by
+              have := getTx_at (A ++ [(DOp.del, le)]) (DOp.eq, le) B (A.length + 1) (by simp)
+              simpa using this
+            rw [e2, set_mid1]
+            refine SameTexts.trans ?_ (ih _ ?_)
+            · rw [← hd, hAB]
+              unfold SameTexts
+              simp [text1_append, text2_append, text1_cons', text2_cons', c1, c2]
+            · intro le' top' rest' h1; cases h1
+          · rw [← hd]; exact ih _ hinv1
+        · rw [← hd]; exact ih _ hinv1
+
+/-! ### cleanupMerge, first pass -/
+
+/-- The state of the first pass in zipper form: `A` = the entries before the current run of deletions /
+insertions (it is empty or ends with an equality), `run` = that run, `R` = the entries from the pointer on. -/
+structure MZ (s : MergeSt) (A run R : Diff) : Prop where
+  hd : s.d = A ++ run ++ R
+  hp : s.ptr = A.length + run.length
+  hn : run.length = s.cd + s.ci
+  hrun : ∀ p ∈ run, p.1 ≠ DOp.eq
+  htd : s.td = text1 run
+  hti : s.ti = text2 run
+  hA : A = [] ∨ ∃ A' e, A = A' ++ [(DOp.eq, e)]
+
+/-- what the two factoring steps return, in zipper form -/
+def FR (s : MergeSt) (A run : Diff) (e : Str) (R : Diff) (r : Diff × Nat × Str × Str) : Prop :=
+  ∃ A1 pre suf, r.1 = A1 ++ run ++ (DOp.eq, suf ++ e) :: R ∧ r.2.1 = A1.length + run.length ∧
+    text1 A1 = text1 A ++ pre ∧ text2 A1 = text2 A ++ pre ∧
+    s.ti = pre ++ r.2.2.1 ++ suf ∧ s.td = pre ++ r.2.2.2 ++ suf
+
+theorem FR_id (s : MergeSt) (A run : Diff) (e : Str) (R : Diff) (z : MZ s A run ((DOp.eq, e) :: R)) :
+    FR s A run e R (s.d, s.ptr, s.ti, s.td) :=
+  ⟨A, [], [], by simpa using z.hd, z.hp, by simp, by simp, by simp, by simp⟩
+
+theorem text1_snoc_eq (A : Diff) (e : Str) : text1 (A ++ [(DOp.eq, e)]) = text1 A ++ e := by
+  simp [text1_append, text1_cons', c1, text1_nil]
+theorem text2_snoc_eq (A : Diff) (e : Str) : text2 (A ++ [(DOp.eq, e)]) = text2 A ++ e := by
+  simp [text2_append, text2_cons', c2, text2_nil]
+
+theorem FR_prefix (s : MergeSt) (A run : Diff) (e : Str) (R : Diff) (z : MZ s A run ((DOp.eq, e) :: R)) :
+    FR s A run e R (factorPrefix s) := by
+  unfold factorPrefix
+  dsimp only
+  split
+  · next hcl =>
+    have hpre : s.ti.take (commonPrefix s.ti s.td) = s.td.take (commonPrefix s.ti s.td) := commonPrefix_take _ _
+    have hx : s.ptr - s.cd - s.ci = A.length := by have := z.hp; have := z.hn; omega
+    rw [hx]
+    rcases z.hA with hA | ⟨A', ae, hA⟩
+    · subst hA
+      have hc : ¬ ((0 : Nat) ≥ 1 ∧ getOp s.d (0 - 1) = some DOp.eq) := by omega
+      simp only [List.length_nil]
+      rw [if_neg hc]
+      refine ⟨[(DOp.eq, s.ti.take (commonPrefix s.ti s.td))], s.ti.take (commonPrefix s.ti s.td), [], ?_, ?_, ?_, ?_, ?_, ?_⟩
+      · have := z.hd; simp only [List.nil_append] at this; simp [this]
+      · have := z.hp; simp at this ⊢; omega
+      · simp [text1_cons', c1, text1_nil]
+      · simp [text2_cons', c2, text2_nil]
+      · simp
+      · simp only [List.append_nil]; rw [hpre, List.take_append_drop]
+    · subst hA
+      have hd' : s.d = A' ++ (DOp.eq, ae) :: (run ++ (DOp.eq, e) :: R) := by rw [z.hd]; simp
+      have hlen : (A' ++ [(DOp.eq, ae)]).length - 1 = A'.length := by simp
+      have hc : (A' ++ [(DOp.eq, ae)]).length ≥ 1 ∧ getOp s.d ((A' ++ [(DOp.eq, ae)]).length - 1) = some DOp.eq := by
+        refine ⟨by simp, ?_⟩
+        rw [hlen, hd']; exact getOp_at A' _ _ _ rfl
+      rw [if_pos hc, hlen]
+      have ht : getTx s.d A'.length = ae := by rw [hd']; exact getTx_at A' _ _ _ rfl
+      rw [ht]
+      refine ⟨A' ++ [(DOp.eq, ae ++ s.ti.take (commonPrefix s.ti s.td))], s.ti.take (commonPrefix s.ti s.td), [], ?_, ?_, ?_, ?_, ?_, ?_⟩
+      · dsimp only; rw [hd', set_mid]; simp
+      · have := z.hp; simp at this ⊢; omega
+      · simp only [text1_snoc_eq, List.append_assoc]
+      · simp only [text2_snoc_eq, List.append_assoc]
+      · simp
+      · simp only [List.append_nil]; rw [hpre, List.take_append_drop]
+  · exact FR_id s A run e R z
+
+theorem FR_suffix (s : MergeSt) (A run : Diff) (e : Str) (R : Diff) (r : Diff × Nat × Str × Str)
+    (h : FR s A run e R r) : FR s A run e R (factorSuffix r) := by
+  unfold factorSuffix
+  dsimp only
+  split
+  · obtain ⟨A1, pre, suf, h1, h2, h3, h4, h5, h6⟩ := h
+    have hs := commonSuffix_takeRight r.2.2.1 r.2.2.2
+    have hg : getTx r.1 r.2.1 = suf ++ e := by
+      rw [h1, h2]
+      have := getTx_at (A1 ++ run) (DOp.eq, suf ++ e) R (A1.length + run.length) (by simp)
+      simpa using this
+    refine ⟨A1, pre, takeRight (commonSuffix r.2.2.1 r.2.2.2) r.2.2.1 ++ suf, ?_, h2, h3, h4, ?_, ?_⟩
+    · dsimp only
+      rw [hg, h1, h2]
+      have := set_mid (A1 ++ run) (DOp.eq, suf ++ e)
+        (DOp.eq, takeRight (commonSuffix r.2.2.1 r.2.2.2) r.2.2.1 ++ (suf ++ e)) R
+      simp only [List.length_append, List.append_assoc] at this ⊢
+      exact this
+    · dsimp only
+      rw [h5]
+      have := dropRight_takeRight r.2.2.1 (commonSuffix r.2.2.1 r.2.2.2)
+      calc pre ++ r.2.2.1 ++ suf = pre ++ (dropRight (commonSuffix r.2.2.1 r.2.2.2) r.2.2.1 ++
+              takeRight (commonSuffix r.2.2.1 r.2.2.2) r.2.2.1) ++ suf := by rw [this]
+        _ = _ := by simp only [List.append_assoc]
+    · dsimp only
+      rw [h6, hs]
+      have := dropRight_takeRight r.2.2.2 (commonSuffix r.2.2.1 r.2.2.2)
+      calc pre ++ r.2.2.2 ++ suf = pre ++ (dropRight (commonSuffix r.2.2.1 r.2.2.2) r.2.2.2 ++
+              takeRight (commonSuffix r.2.2.1 r.2.2.2) r.2.2.2) ++ suf := by rw [this]
+        _ = _ := by simp only [List.append_assoc]
+  · exact h
+
+theorem FR_run (s : MergeSt) (A run : Diff) (e : Str) (R : Diff) (z : MZ s A run ((DOp.eq, e) :: R)) :
+    FR s A run e R (factorRun s) := by
+  unfold factorRun
+  split
+  · exact FR_suffix s A run e R _ (FR_prefix s A run e R z)
+  · exact FR_id s A run e R z
+
+/-- texts of a run without equalities: only its deletions / insertions -/
+theorem text_newOps (td ti : Str) :
+    text1 ((if td.isEmpty then [] else [(DOp.del, td)]) ++ (if ti.isEmpty then [] else [(DOp.ins, ti)])) = td ∧
+    text2 ((if td.isEmpty then [] else [(DOp.del, td)]) ++ (if ti.isEmpty then [] else [(DOp.ins, ti)])) = ti := by
+  cases td <;> cases ti <;> simp [text1, text2]
+
+theorem newOps_noeq (td ti : Str) :
+    ∀ p ∈ ((if td.isEmpty then [] else [(DOp.del, td)]) ++ (if ti.isEmpty then [] else [(DOp.ins, ti)]) : Diff),
+      p.1 ≠ DOp.eq := by
+  intro p hp
+  cases td <;> cases ti <;> simp at hp
+  · subst hp; simp
+  · subst hp; simp
+  · rcases hp with hp | hp <;> subst hp <;> simp
+
+theorem replaceRun_spec (s : MergeSt) (A run : Diff) (e : Str) (R : Diff) (r : Diff × Nat × Str × Str)
+    (z : MZ s A run ((DOp.eq, e) :: R)) (h : FR s A run e R r) :
+    ∃ A2, MZ (replaceRun s r) A2 [] R ∧ SameTexts s.d (replaceRun s r).d := by
+  obtain ⟨A1, pre, suf, h1, h2, h3, h4, h5, h6⟩ := h
+  unfold replaceRun
+  dsimp only
+  have hstart : r.2.1 - (s.cd + s.ci) = A1.length := by rw [h2, ← z.hn]; omega
+  rw [hstart]
+  have htake : r.1.take A1.length = A1 := by rw [h1, List.append_assoc]; exact take_mid _ _
+  have hdrop : r.1.drop (A1.length + s.cd + s.ci) = (DOp.eq, suf ++ e) :: R := by
+    rw [h1]
+    have : A1.length + s.cd + s.ci = (A1 ++ run).length := by simp [z.hn]; omega
+    rw [this]; exact drop_mid _ _
+  rw [htake, hdrop]
+  generalize hno : ((if r.2.2.2.isEmpty then [] else [(DOp.del, r.2.2.2)]) ++
+    (if r.2.2.1.isEmpty then [] else [(DOp.ins, r.2.2.1)]) : Diff) = newOps
+  have hnt := text_newOps r.2.2.2 r.2.2.1
+  rw [hno] at hnt
+  refine ⟨A1 ++ newOps ++ [(DOp.eq, suf ++ e)], ?_, ?_⟩
+  · refine ⟨?_, ?_, ?_, ?_, rfl, rfl, Or.inr ⟨A1 ++ newOps, suf ++ e, rfl⟩⟩
+    · simp [MergeSt.reset]
+    · simp [MergeSt.reset]; omega
+    · simp [MergeSt.reset]
+    · intro p hp; cases hp
+  · unfold SameTexts
+    simp only [MergeSt.reset]
+    rw [z.hd]
+    simp only [text1_append, text2_append, text1_cons', text2_cons', c1_eq, c2_eq, hnt.1, hnt.2, h3, h4,
+      ← z.htd, ← z.hti, h5, h6, List.append_assoc]
+    trivial
+
+theorem mergePass1_same (fuel : Nat) (s : MergeSt) (A run R : Diff) (z : MZ s A run R) :
+    SameTexts s.d (mergePass1 fuel s) := by
+  induction fuel generalizing s A run R with
+  | zero => exact SameTexts.refl _
+  | succ f ih =>
+    unfold mergePass1
+    have hget : s.d[s.ptr]? = R.head? := by
+      rw [z.hd, z.hp]
+      have : A.length + run.length = (A ++ run).length := by simp
+      rw [this]
+      cases R with
+      | nil => simp
+      | cons x R' => rw [getElem?_mid]; rfl
+    split
+    · exact SameTexts.refl _
+    · next t ht =>
+      -- an insertion joins the run
+      rw [hget] at ht
+      cases R with
+      | nil => cases ht
+      | cons x R' =>
+        simp only [List.head?_cons, Option.some.injEq] at ht
+        subst ht
+        refine ih _ A (run ++ [(DOp.ins, t)]) R' ⟨?_, ?_, ?_, ?_, ?_, ?_, z.hA⟩
+        · show s.d = _; rw [z.hd]; simp
+        · show s.ptr + 1 = _; rw [z.hp]; simp; omega
+        · show _ = s.cd + (s.ci + 1); simp [z.hn]; omega
+        · intro p hp
+          rcases List.mem_append.mp hp with hp | hp
+          · exact z.hrun p hp
+          · simp at hp; subst hp; simp
+        · show s.td = _; rw [z.htd]; simp [text1_append, text1_cons', c1, text1_nil]
+        · show s.ti ++ t = _; rw [z.hti]; simp [text2_append, text2_cons', c2, text2_nil]
+    · next t ht =>
+      rw [hget] at ht
+      cases R with
+      | nil => cases ht
+      | cons x R' =>
+        simp only [List.head?_cons, Option.some.injEq] at ht
+        subst ht
+        refine ih _ A (run ++ [(DOp.del, t)]) R' ⟨?_, ?_, ?_, ?_, ?_, ?_, z.hA⟩
+        · show s.d = _; rw [z.hd]; simp
+        · show s.ptr + 1 = _; rw [z.hp]; simp; omega
+        · show _ = (s.cd + 1) + s.ci; simp [z.hn]; omega
+        · intro p hp
+          rcases List.mem_append.mp hp with hp | hp
+          · exact z.hrun p hp
+          · simp at hp; subst hp; simp
+        · show s.td ++ t = _; rw [z.htd]; simp [text1_append, text1_cons', c1, text1_nil]
+        · show s.ti = _; rw [z.hti]; simp [text2_append, text2_cons', c2, text2_nil]
+    · next e ht =>
+      rw [hget] at ht
+      cases R with
+      | nil => cases ht
+      | cons x R' =>
+        simp only [List.head?_cons, Option.some.injEq] at ht
+        subst ht
+        split
+        · -- the run is replaced
+          obtain ⟨A2, z2, hs⟩ := replaceRun_spec s A run e R' _ z (FR_run s A run e R' z)
+          exact SameTexts.trans hs (ih _ A2 [] R' z2)
+        · next hsmall =>
+          split
+          · next hj =>
+            -- the equality is merged into the previous one: the run is empty
+            have hrun : run = [] := by
+              cases run with
+              | nil => rfl
+              | cons y rest =>
+                exfalso
+                have hl : rest = [] := by
+                  have := z.hn; simp at this
+                  exact List.eq_nil_of_length_eq_zero (by omega)
+                subst hl
+                have hp1 : s.ptr - 1 = A.length := by have := z.hp; simp at this; omega
+                have : getOp s.d (s.ptr - 1) = some y.1 := by
+                  rw [hp1, z.hd]
+                  have := getOp_at A y ((DOp.eq, e) :: R') A.length rfl
+                  simpa using this
+                rw [this] at hj
+                have hy := hj.2; injection hy with hy
+                exact z.hrun y (by simp) hy
+            subst hrun
+            have hpA : s.ptr = A.length := by have := z.hp; simpa using this
+            rcases z.hA with hA | ⟨A', ae, hA⟩
+            · subst hA; exfalso; simp at hpA; exact hj.1 hpA
+            · subst hA
+              have hd' : s.d = A' ++ (DOp.eq, ae) :: (DOp.eq, e) :: R' := by rw [z.hd]; simp
+              have hp1 : s.ptr = A'.length + 1 := by rw [hpA]; simp
+              have e1 : getTx s.d (s.ptr - 1) = ae := by
+                rw [hp1, hd']; exact getTx_at A' _ _ _ (by omega)
+              have e2 : getTx s.d s.ptr = e := by
+                rw [hp1, hd']
+                have := getTx_at (A' ++ [(DOp.eq, ae)]) (DOp.eq, e) R' (A'.length + 1) (by simp)
+                simpa using this
+              have hj' : joinEq s = MergeSt.reset (A' ++ (DOp.eq, ae ++ e) :: R') (A'.length + 1) := by
+                unfold joinEq
+                rw [e1, e2, hp1, hd']
+                simp only [Nat.add_sub_cancel, set_mid, eraseIdx_mid1]
+              rw [hj']
+              refine SameTexts.trans ?_ (ih _ (A' ++ [(DOp.eq, ae ++ e)]) [] R' ⟨?_, ?_, ?_, ?_, rfl, rfl, Or.inr ⟨A', ae ++ e, rfl⟩⟩)
+              · rw [hd']
+                unfold SameTexts
+                simp [MergeSt.reset, text1_append, text2_append, text1_cons', text2_cons', c1_eq, c2_eq]
+              · simp [MergeSt.reset]
+              · simp [MergeSt.reset]
+              · simp [MergeSt.reset]
+              · intro p hp; cases hp
+          · -- the pointer moves past the equality
+            refine ih _ (A ++ run ++ [(DOp.eq, e)]) [] R' ⟨?_, ?_, ?_, ?_, rfl, rfl, Or.inr ⟨A ++ run, e, rfl⟩⟩
+            · simp [MergeSt.reset, z.hd]
+            · simp [MergeSt.reset, z.hp]; omega
+            · simp [MergeSt.reset]
+            · intro p hp; cases hp
+
+theorem dropLast_empty_same (d : Diff) (op : DOp) (h : d.getLast? = some (op, [])) : SameTexts d d.dropLast := by
+  have hd : d = d.dropLast ++ [(op, [])] := by
+    have hne : d ≠ [] := by intro e; subst e; simp at h
+    have := List.dropLast_concat_getLast hne
+    rw [List.getLast?_eq_some_getLast hne] at h
+    injection h with h
+    rw [h] at this
+    exact this.symm
+  unfold SameTexts
+  conv => lhs; rhs; rw [hd]
+  conv => rhs; rhs; rw [hd]
+  cases op <;> simp [text1_append, text2_append, text1_cons', text2_cons', c1, c2, text1_nil, text2_nil]
+
+/-- `diff_cleanupMerge` keeps both texts. -/
+theorem cleanupMerge_same (fuel : Nat) (d : Diff) : SameTexts d (cleanupMerge fuel d) := by
+  induction fuel generalizing d with
+  | zero => exact SameTexts.refl d
+  | succ f ih =>
+    unfold cleanupMerge
+    dsimp only
+    have h0 : SameTexts d (d ++ [(DOp.eq, [])]) := by
+      unfold SameTexts
+      simp [text1_append, text2_append, text1_cons', text2_cons', c1, c2, text1_nil, text2_nil]
+    have h1 : SameTexts (d ++ [(DOp.eq, [])])
+        (mergePass1 (4 * (d ++ [(DOp.eq, [])]).length + 8)
+          { d := d ++ [(DOp.eq, [])], ptr := 0, cd := 0, ci := 0, td := [], ti := [] }) :=
+      mergePass1_same _ _ [] [] (d ++ [(DOp.eq, [])]) ⟨by simp, by simp, by simp, (by intro p hp; cases hp), rfl, rfl, Or.inl rfl⟩
+    generalize mergePass1 (4 * (d ++ [(DOp.eq, [])]).length + 8)
+          { d := d ++ [(DOp.eq, [])], ptr := 0, cd := 0, ci := 0, td := [], ti := [] } = d1 at h1
+    have h2 : SameTexts d1 (dropDummy d1) := by
+      unfold dropDummy
+      split
+      · next op hl => exact dropLast_empty_same d1 op hl
+      · exact SameTexts.refl _
+    generalize dropDummy d1 = d2 at h2
+    have h3 := mergePass2_same (2 * d2.length + 4) d2 1 false (Nat.le_refl 1)
+    generalize mergePass2 (2 * d2.length + 4) d2 1 false = r at h3
+    have h03 : SameTexts d r.1 := (h0.trans h1).trans (h2.trans h3)
+    split
+    · exact h03.trans (ih r.1)
+    · exact h03
+
+/-- `diff_cleanupSemantic` (with its lossless and overlap passes) keeps both texts. -/
+theorem cleanupSemantic_same (d : Diff) : SameTexts d (cleanupSemantic d) := by
+  unfold cleanupSemantic
+  dsimp only
+  generalize d.length + (d.map (·.2.length)).sum + 4 = n
+  have h1 := semPass1_same (4 * n * n + 16)
+    { d := d, ptr := 0, eqs := [], lastEq := none, li1 := 0, ld1 := 0, li2 := 0, ld2 := 0, changes := false }
+    (by intro le top rest h; cases h)
+  dsimp only at h1
+  generalize semPass1 (4 * n * n + 16)
+    { d := d, ptr := 0, eqs := [], lastEq := none, li1 := 0, ld1 := 0, li2 := 0, ld2 := 0, changes := false } = r at h1
+  have h2 : SameTexts r.1 (if r.2 = true then cleanupMerge (n + 4) r.1 else r.1) := by
+    split
+    · exact cleanupMerge_same _ _
+    · exact SameTexts.refl _
+  generalize (if r.2 = true then cleanupMerge (n + 4) r.1 else r.1) = d2 at h2
+  have h3 := lossless_same (4 * d2.length + 8) d2 1 (Nat.le_refl 1)
+  generalize lossless (4 * d2.length + 8) d2 1 = d3 at h3
+  have h4 := overlapPass_same (4 * d3.length + 8) d3 1 (Nat.le_refl 1)
+  exact ((h1.trans h2).trans h3).trans h4
+
+/-! ### line mode: lines as characters -/
+
+theorem char_roundtrip (i : Nat) (h : i < 0xD800) : (Char.ofNat i).toNat = i := by
+  have hv : i.isValidChar := Or.inl h
+  simp [Char.ofNat, hv, Char.toNat, Char.ofNatAux]
+
+theorem splitLinesKeep_flatten (t cur : Str) : (splitLinesKeep t cur).flatten = cur.reverse ++ t := by
+  induction t generalizing cur with
+  | nil =>
+    simp only [splitLinesKeep]
+    split
+    · next h =>
+      have : cur = [] := by simpa using h
+      subst this; rfl
+    · simp
+  | cons c rest ih =>
+    simp only [splitLinesKeep]
+    split
+    · simp [ih]
+    · rw [ih]; simp
+
+theorem splitLinesKeep_length (t cur : Str) : (splitLinesKeep t cur).length ≤ t.length + 1 := by
+  induction t generalizing cur with
+  | nil => simp only [splitLinesKeep]; split <;> simp
+  | cons c rest ih =>
+    simp only [splitLinesKeep]
+    split
+    · have := ih []; simp; omega
+    · have := ih (c :: cur); simp; omega
+
+/-- decoding one character through the line table -/
+def decode (table : List Str) (c : Char) : Str := table.getD c.toNat []
+
+def mungeStep (acc : Str × List Str) (l : Str) : Str × List Str :=
+  match acc.2.idxOf? l with
+  | some i => (acc.1 ++ [Char.ofNat i], acc.2)
+  | none => (acc.1 ++ [Char.ofNat acc.2.length], acc.2 ++ [l])
+
+theorem munge_eq (lines : List Str) (table : List Str) : munge lines table = lines.foldl mungeStep ([], table) := rfl
+
+theorem getD_append_left (t ext : List Str) (i : Nat) (h : i < t.length) : (t ++ ext).getD i [] = t.getD i [] := by
+  simp [List.getD, List.getElem?_append_left h]
+
+theorem munge_fold_spec (lines : List Str) (acc : Str) (tbl : List Str) :
+    ∃ cs ext, lines.foldl mungeStep (acc, tbl) = (acc ++ cs, tbl ++ ext) ∧ ext.length ≤ lines.length ∧
+      (tbl.length + lines.length ≤ 0xD800 →
+        (∀ c ∈ cs, c.toNat < (tbl ++ ext).length) ∧ cs.map (decode (tbl ++ ext)) = lines) := by
+  induction lines generalizing acc tbl with
+  | nil => exact ⟨[], [], by simp, by simp, fun _ => ⟨(by intro c hc; cases hc), rfl⟩⟩
+  | cons l rest ih =>
+    simp only [List.foldl_cons]
+    cases hi : tbl.idxOf? l with
+    | some i =>
+      have hstep : mungeStep (acc, tbl) l = (acc ++ [Char.ofNat i], tbl) := by simp [mungeStep, hi]
+      rw [hstep]
+      obtain ⟨cs, ext, h1, h2, h3⟩ := ih (acc ++ [Char.ofNat i]) tbl
+      refine ⟨Char.ofNat i :: cs, ext, by rw [h1]; simp, by simp; omega, ?_⟩
+      intro hb
+      obtain ⟨hlt, hget, _⟩ := List.idxOf?_eq_some_iff.mp hi
+      have hr : (Char.ofNat i).toNat = i := char_roundtrip i (by simp at hb; omega)
+      obtain ⟨h4, h5⟩ := h3 (by simp at hb; omega)
+      constructor
+      · intro c hc
+        rcases List.mem_cons.mp hc with hc | hc
+        · subst hc; rw [hr]; simp; omega
+        · exact h4 c hc
+      · simp only [List.map_cons, h5]
+        congr 1
+        unfold decode
+        rw [hr, getD_append_left _ _ _ hlt]
+        simp [List.getD, hlt, hget]
+    | none =>
+      have hstep : mungeStep (acc, tbl) l = (acc ++ [Char.ofNat tbl.length], tbl ++ [l]) := by simp [mungeStep, hi]
+      rw [hstep]
+      obtain ⟨cs, ext, h1, h2, h3⟩ := ih (acc ++ [Char.ofNat tbl.length]) (tbl ++ [l])
+      refine ⟨Char.ofNat tbl.length :: cs, l :: ext, by rw [h1]; simp, by simp; omega, ?_⟩
+      intro hb
+      have hr : (Char.ofNat tbl.length).toNat = tbl.length := char_roundtrip _ (by simp at hb; omega)
+      obtain ⟨h4, h5⟩ := h3 (by simp at hb ⊢; omega)
+      have happ : tbl ++ l :: ext = tbl ++ [l] ++ ext := by simp
+      constructor
+      · intro c hc
+        rcases List.mem_cons.mp hc with hc | hc
+        · subst hc; rw [hr]; simp
+        · rw [happ]; exact h4 c hc
+      · rw [happ]
+        simp only [List.map_cons, h5]
+        congr 1
+        unfold decode
+        rw [hr, getD_append_left _ _ _ (by simp)]
+        simp [List.getD]
+
+theorem charsToLines_texts (table : List Str) (d : Diff) :
+    text1 (charsToLines table d) = (text1 d).flatMap (decode table) ∧
+    text2 (charsToLines table d) = (text2 d).flatMap (decode table) := by
+  induction d with
+  | nil => exact ⟨rfl, rfl⟩
+  | cons p d ih =>
+    obtain ⟨op, t⟩ := p
+    have hc : charsToLines table ((op, t) :: d) = (op, t.flatMap (decode table)) :: charsToLines table d := rfl
+    rw [hc, text1_cons', text2_cons', text1_cons', text2_cons', ih.1, ih.2]
+    cases op <;> simp [c1, c2, List.flatMap_append]
+
+theorem flatMap_decode (table : List Str) (cs : Str) : cs.flatMap (decode table) = (cs.map (decode table)).flatten := by
+  simp [List.flatMap_def]
+
+theorem decode_ext (tbl ext : List Str) (cs : Str) (h : ∀ c ∈ cs, c.toNat < tbl.length) :
+    cs.map (decode (tbl ++ ext)) = cs.map (decode tbl) := by
+  apply List.map_congr_left
+  intro c hc
+  unfold decode
+  exact getD_append_left _ _ _ (h c hc)
+
+/-- encoding both texts of line mode and decoding again gives the texts back -/
+theorem munge_roundtrip (t1 t2 : Str) (hb : t1.length + t2.length + 3 ≤ 0xD800) :
+    let r1 := munge (splitLinesKeep t1 []) [[]]
+    let r2 := munge (splitLinesKeep t2 []) r1.2
+    r1.1.flatMap (decode r2.2) = t1 ∧ r2.1.flatMap (decode r2.2) = t2 := by
+  intro r1 r2
+  have l1 := splitLinesKeep_length t1 []
+  have l2 := splitLinesKeep_length t2 []
+  obtain ⟨cs1, ext1, e1, n1, s1⟩ := munge_fold_spec (splitLinesKeep t1 []) [] [[]]
+  have hr1 : r1 = (cs1, [[]] ++ ext1) := by show munge _ _ = _; rw [munge_eq, e1]; simp
+  obtain ⟨g1, d1⟩ := s1 (by simp; omega)
+  obtain ⟨cs2, ext2, e2, n2, s2⟩ := munge_fold_spec (splitLinesKeep t2 []) [] ([[]] ++ ext1)
+  have hr2 : r2 = (cs2, [[]] ++ ext1 ++ ext2) := by
+    show munge _ r1.2 = _; rw [hr1, munge_eq, e2]; simp
+  obtain ⟨g2, d2⟩ := s2 (by simp; omega)
+  rw [hr1, hr2]
+  dsimp only
+  constructor
+  · rw [flatMap_decode, decode_ext _ _ _ g1, d1, splitLinesKeep_flatten]; rfl
+  · rw [flatMap_decode, d2, splitLinesKeep_flatten]; rfl
+
+/-! ### the re-diff loop of line mode and the recursion of `diff_main` -/
+
+theorem optEq_texts (t : Str) :
+    text1 (if t.isEmpty then [] else [(DOp.eq, t)]) = t ∧ text2 (if t.isEmpty then [] else [(DOp.eq, t)]) = t := by
+  cases t <;> simp [text1, text2]
+
+/-- the guard of line mode: with line mode on, the texts are short enough for the line table to be encoded as characters -/
+def Small (N : Nat) (cl : Bool) (t1 t2 : Str) : Prop := cl = true → t1.length + t2.length ≤ N
+
+theorem recon_two (t1 t2 : Str) : Recon [(DOp.del, t1), (DOp.ins, t2)] t1 t2 := by
+  simp [Recon, text1, text2]
+
+theorem diffMain_step (bis : Bisect) (N f : Nat)
+    (hC : ∀ t1 t2 cl, Small N cl t1 t2 → Recon (diffCompute bis f t1 t2 cl) t1 t2) :
+    ∀ t1 t2 cl, Small N cl t1 t2 → Recon (diffMain bis (f + 1) t1 t2 cl) t1 t2 := by
+  intro t1 t2 cl hs
+  unfold diffMain
+  split
+  · next heq =>
+    subst heq
+    have := optEq_texts t1
+    exact ⟨this.1, this.2⟩
+  · dsimp only
+    refine SameTexts.recon (cleanupMerge_same _ _) ?_
+    have hp := commonPrefix_take t1 t2
+    generalize commonPrefix t1 t2 = cp at hp
+    have hsf := commonSuffix_takeRight (t1.drop cp) (t2.drop cp)
+    generalize commonSuffix (t1.drop cp) (t2.drop cp) = cs at hsf
+    have hmid := hC (dropRight cs (t1.drop cp)) (dropRight cs (t2.drop cp)) cl (by
+      intro hcl
+      have := hs hcl
+      simp only [dropRight, List.length_take, List.length_drop]
+      omega)
+    have e1 := optEq_texts (t1.take cp)
+    have e2 := optEq_texts (takeRight cs (t1.drop cp))
+    unfold Recon
+    simp only [text1_append, text2_append, e1.1, e1.2, e2.1, e2.2, hmid.1, hmid.2]
+    constructor
+    · rw [List.append_assoc, dropRight_takeRight, List.take_append_drop]
+    · rw [hsf, List.append_assoc, dropRight_takeRight, hp, List.take_append_drop]
+
+theorem find_split (long short : Str) (i : Nat) (h : find long short = some i) :
+    long.take i ++ short ++ long.drop (i + short.length) = long := by
+  have hs := find_spec long short i h
+  have e : long.drop (i + short.length) = (long.drop i).drop short.length := by rw [List.drop_drop]
+  rw [e]
+  conv => lhs; lhs; rhs; rw [← hs.2]
+  rw [List.append_assoc, List.take_append_drop, List.take_append_drop]
+
+theorem recon_append {x y : Diff} {a b c d : Str} (h1 : Recon x a b) (h2 : Recon y c d) :
+    Recon (x ++ y) (a ++ c) (b ++ d) := by
+  unfold Recon at *
+  rw [text1_append, text2_append, h1.1, h1.2, h2.1, h2.2]
+  exact ⟨rfl, rfl⟩
+
+theorem diffCompute_step (bis : Bisect) (N f : Nat)
+    (hM : ∀ t1 t2 cl, Small N cl t1 t2 → Recon (diffMain bis f t1 t2 cl) t1 t2)
+    (hL : ∀ t1 t2, t1.length + t2.length ≤ N → Recon (diffLineMode bis f t1 t2) t1 t2) :
+    ∀ t1 t2 cl, Small N cl t1 t2 → Recon (diffCompute bis (f + 1) t1 t2 cl) t1 t2 := by
+  intro t1 t2 cl hs
+  unfold diffCompute
+  split
+  · next h1 =>
+    have : t1 = [] := by simpa using h1
+    subst this
+    simp [Recon, text1, text2]
+  · split
+    · next h1 h2 =>
+      have : t2 = [] := by simpa using h2
+      subst this
+      simp [Recon, text1, text2]
+    · generalize hls : (if t1.length > t2.length then (t1, t2) else (t2, t1)) = ls
+      obtain ⟨long, short⟩ := ls
+      dsimp only
+      split
+      · next i hf =>
+        have hsp := find_split long short i hf
+        split at hls
+        · next hgt =>
+          cases hls
+          simp only [hgt, if_true]
+          unfold Recon
+          simp only [text1, text2, List.flatMap_cons, List.flatMap_nil, reduceCtorEq, if_false, if_true,
+            List.append_nil, List.nil_append]
+          exact ⟨by rw [← List.append_assoc]; exact hsp, trivial⟩
+        · next hgt =>
+          cases hls
+          simp only [hgt, if_false]
+          unfold Recon
+          simp only [text1, text2, List.flatMap_cons, List.flatMap_nil, reduceCtorEq, if_false, if_true,
+            List.append_nil, List.nil_append]
+          exact ⟨trivial, by rw [← List.append_assoc]; exact hsp⟩
+      · split
+        · exact recon_two t1 t2
+        · split
+          · next hm hh =>
+            have hsplit := halfMatch_split t1 t2 hm hh
+            have l1 := congrArg List.length hsplit.1
+            have l2 := congrArg List.length hsplit.2
+            simp only [List.length_append] at l1 l2
+            have r1 := hM hm.t1a hm.t2a cl (by intro hcl; have := hs hcl; omega)
+            have r2 := hM hm.t1b hm.t2b cl (by intro hcl; have := hs hcl; omega)
+            have rm : Recon [(DOp.eq, hm.mid)] hm.mid hm.mid := by simp [Recon, text1, text2]
+            have := recon_append (recon_append r1 rm) r2
+            rw [hsplit.1, hsplit.2] at this
+            exact this
+          · split
+            · next hcond =>
+              simp only [Bool.and_eq_true, decide_eq_true_eq] at hcond
+              exact hL t1 t2 (hs hcond.1.1)
+            · split
+              · next x y hb =>
+                have r1 := hM (t1.take x) (t2.take y) false (by intro h; cases h)
+                have r2 := hM (t1.drop x) (t2.drop y) false (by intro h; cases h)
+                have := recon_append r1 r2
+                rw [List.take_append_drop, List.take_append_drop] at this
+                exact this
+              · exact recon_two t1 t2
+
+theorem rediff_step (bis : Bisect) (f : Nat)
+    (hM : ∀ t1 t2, Recon (diffMain bis f t1 t2 false) t1 t2)
+    (hR : ∀ d run td ti, td = text1 run → ti = text2 run → SameTexts (run ++ d) (rediff bis f d run td ti)) :
+    ∀ d run td ti, td = text1 run → ti = text2 run → SameTexts (run ++ d) (rediff bis (f + 1) d run td ti) := by
+  intro d run td ti htd hti
+  unfold rediff
+  split
+  · simp only [List.append_nil]; exact SameTexts.refl _
+  · next t rest =>
+    have := hR rest (run ++ [(DOp.ins, t)]) td (ti ++ t)
+      (by rw [htd]; simp [text1_append, text1_cons', c1, text1_nil])
+      (by rw [hti]; simp [text2_append, text2_cons', c2, text2_nil])
+    simpa using this
+  · next t rest =>
+    have := hR rest (run ++ [(DOp.del, t)]) (td ++ t) ti
+      (by rw [htd]; simp [text1_append, text1_cons', c1, text1_nil])
+      (by rw [hti]; simp [text2_append, text2_cons', c2, text2_nil])
+    simpa using this
+  · next t rest =>
+    dsimp only
+    have hrest := hR rest [] [] [] rfl rfl
+    simp only [List.nil_append] at hrest
+    have hrun : SameTexts run
+        (if (run.any fun p => p.1 == DOp.del) && (run.any fun p => p.1 == DOp.ins) then diffMain bis f td ti false else run) := by
+      split
+      · have := hM td ti
+        exact ⟨by rw [this.1, htd], by rw [this.2, hti]⟩
+      · exact SameTexts.refl _
+    refine sameTexts_append hrun ?_
+    have h1 : SameTexts [(DOp.eq, t)] [(DOp.eq, t)] := SameTexts.refl _
+    have := sameTexts_append h1 hrest
+    simpa using this
+
+theorem rediff_ends (bis : Bisect) (fuel : Nat) (d' run : Diff) (td ti : Str) :
+    ∃ X, rediff bis fuel (d' ++ [(DOp.eq, [])]) run td ti = X ++ [(DOp.eq, [])] := by
+  induction fuel generalizing d' run td ti with
+  | zero => exact ⟨run ++ d', by unfold rediff; simp⟩
+  | succ f ih =>
+    cases d' with
+    | nil =>
+      unfold rediff
+      simp only [List.nil_append]
+      have : rediff bis f [] [] [] [] = [] := by cases f <;> (unfold rediff; rfl)
+      rw [this]
+      exact ⟨_, rfl⟩
+    | cons p d'' =>
+      obtain ⟨op, t⟩ := p
+      unfold rediff
+      cases op
+      · obtain ⟨X, hX⟩ := ih d'' (run ++ [(DOp.del, t)]) (td ++ t) ti
+        exact ⟨X, by simpa using hX⟩
+      · obtain ⟨X, hX⟩ := ih d'' (run ++ [(DOp.ins, t)]) td (ti ++ t)
+        exact ⟨X, by simpa using hX⟩
+      · obtain ⟨X, hX⟩ := ih d'' [] [] []
+        simp only [List.cons_append]
+        rw [hX]
+        exact ⟨(if ((run.any fun p => p.1 == DOp.del) && run.any fun p => p.1 == DOp.ins) = true then
+            diffMain bis f td ti false else run) ++ (DOp.eq, t) :: X, by simp⟩
+
+theorem lineMode_step (bis : Bisect) (N f : Nat) (hN : N + 3 ≤ 0xD800)
+    (hM : ∀ t1 t2, Recon (diffMain bis f t1 t2 false) t1 t2)
+    (hR : ∀ d run td ti, td = text1 run → ti = text2 run → SameTexts (run ++ d) (rediff bis f d run td ti)) :
+    ∀ t1 t2, t1.length + t2.length ≤ N → Recon (diffLineMode bis (f + 1) t1 t2) t1 t2 := by
+  intro t1 t2 hb
+  unfold diffLineMode
+  have hrt := munge_roundtrip t1 t2 (by omega)
+  dsimp only at hrt ⊢
+  generalize munge (splitLinesKeep t1 []) [[]] = r1 at hrt ⊢
+  generalize munge (splitLinesKeep t2 []) r1.2 = r2 at hrt ⊢
+  have hdm := hM r1.1 r2.1
+  have hct := charsToLines_texts r2.2 (diffMain bis f r1.1 r2.1 false)
+  rw [hdm.1, hdm.2, hrt.1, hrt.2] at hct
+  have hsem := cleanupSemantic_same (charsToLines r2.2 (diffMain bis f r1.1 r2.1 false))
+  generalize cleanupSemantic (charsToLines r2.2 (diffMain bis f r1.1 r2.1 false)) = d1 at hsem
+  have hre := hR (d1 ++ [(DOp.eq, [])]) [] [] [] rfl rfl
+  obtain ⟨X, hX⟩ := rediff_ends bis f d1 [] [] []
+  rw [hX] at hre ⊢
+  simp only [List.dropLast_concat, List.nil_append] at hre ⊢
+  have h0 : SameTexts (X ++ [(DOp.eq, [])]) X := by
+    unfold SameTexts
+    simp [text1_append, text2_append, text1_cons', text2_cons', c1, c2, text1_nil, text2_nil]
+  have h1 : SameTexts d1 (d1 ++ [(DOp.eq, [])]) := by
+    unfold SameTexts
+    simp [text1_append, text2_append, text1_cons', text2_cons', c1, c2, text1_nil, text2_nil]
+  have hall := ((hsem.trans h1).trans hre).trans h0
+  exact ⟨hall.1.trans hct.1, hall.2.trans hct.2⟩
+
+/-- All four mutually recursive functions of `diff_main`, for every fuel, every bisect oracle. -/
+theorem diff_all (bis : Bisect) (N : Nat) (hN : N + 3 ≤ 0xD800) (fuel : Nat) :
+    (∀ t1 t2 cl, Small N cl t1 t2 → Recon (diffMain bis fuel t1 t2 cl) t1 t2) ∧
+    (∀ t1 t2 cl, Small N cl t1 t2 → Recon (diffCompute bis fuel t1 t2 cl) t1 t2) ∧
+    (∀ t1 t2, t1.length + t2.length ≤ N → Recon (diffLineMode bis fuel t1 t2) t1 t2) ∧
+    (∀ d run td ti, td = text1 run → ti = text2 run → SameTexts (run ++ d) (rediff bis fuel d run td ti)) := by
+  induction fuel with
+  | zero =>
+    refine ⟨?_, ?_, ?_, ?_⟩
+    · intro t1 t2 cl _; unfold diffMain; exact recon_two t1 t2
+    · intro t1 t2 cl _; unfold diffCompute; exact recon_two t1 t2
+    · intro t1 t2 _; unfold diffLineMode; exact recon_two t1 t2
+    · intro d run td ti _ _; unfold rediff; exact SameTexts.refl _
+  | succ f ih =>
+    obtain ⟨hM, hC, hL, hR⟩ := ih
+    have hMf : ∀ t1 t2, Recon (diffMain bis f t1 t2 false) t1 t2 :=
+      fun t1 t2 => hM t1 t2 false (by intro h; cases h)
+    exact ⟨diffMain_step bis N f hC, diffCompute_step bis N f hM hL, lineMode_step bis N f hN hMf hR,
+      rediff_step bis f hMf hR⟩
 
 end XmlDiffModel.Dmp
